@@ -33,6 +33,11 @@ pub fn parse_binary_float(static_: bool, embedded: bool, input: TokenStream) -> 
         }
     };
 
+    // only one sign is allowed
+    if value_str.starts_with(|c| c == '+' || c == '-') {
+        panic_fbig_syntax()
+    }
+
     // allow one underscore prefix
     let value_str = value_str.strip_prefix('_').unwrap_or(value_str);
 
